@@ -706,7 +706,15 @@ def memo_sites(repo: Repo, prefixes: Iterable[str]):
                 if isinstance(n, ast.Assign) and isinstance(
                         n.value, ast.Call) and isinstance(
                         n.value.func, ast.Attribute) and \
-                        n.value.func.attr == 'get' and n.value.args:
+                        n.value.func.attr == 'get' and n.value.args and \
+                        len(n.targets) == 1 and isinstance(
+                        n.targets[0], ast.Name) and any(
+                        isinstance(r, ast.Return) and isinstance(
+                            r.value, ast.Name) and
+                        r.value.id == n.targets[0].id
+                        for r in ast.walk(fn)):
+                    # (a hit is handed back: a registry that only checks for
+                    # duplicates is not a memo)
                     lookups.append((n.value.func.value, n.value.args[0]))
             seen = set()
             for cont_e, key_e in lookups:
@@ -730,6 +738,8 @@ def memo_sites(repo: Repo, prefixes: Iterable[str]):
                 if not stored:
                     continue
                 root = cont.split('.')[0].split('[')[0]
+                if root in params and root not in MEMO_CARRIERS:
+                    continue        # a table the caller passed in
                 if root in defs or (root not in params and any(
                         isinstance(x, ast.Name) and x.id == root and
                         isinstance(x.ctx, ast.Store)
